@@ -1,7 +1,38 @@
 //! C11 — any input yields values or located errors, never a crash.
 
 use crate::fw::{self, Case, Env, Prop, Tier, Verdict};
+use crate::obs::{self, Res};
 use crate::refcalc::ref_decimal;
+
+/// The first caret underline of a rendered diagnostic: (the source line as shown, the column the
+/// carets start at, their number). `None` when the rendering has no `N │ source` / `│ ^^^` pair.
+fn caret_underline(text: &str) -> Option<(String, usize, usize)> {
+    let lines: Vec<&str> = text.lines().collect();
+    for i in 1..lines.len() {
+        let l = lines[i];
+        let Some(bar) = l.find('│') else { continue };
+        if !l[..bar].trim().is_empty() {
+            continue;
+        }
+        let body: Vec<char> = l[bar + '│'.len_utf8()..].chars().skip(1).collect();
+        let col = body.iter().take_while(|c| **c == ' ').count();
+        let n = body.iter().skip(col).take_while(|c| **c == '^').count();
+        if n == 0 {
+            continue;
+        }
+        for j in (0..i).rev() {
+            let s = lines[j];
+            if let Some(b) = s.find('│') {
+                let g = s[..b].trim();
+                if !g.is_empty() && g.chars().all(|c| c.is_ascii_digit()) {
+                    let src: String = s[b + '│'.len_utf8()..].chars().skip(1).collect();
+                    return Some((src, col, n));
+                }
+            }
+        }
+    }
+    None
+}
 use anything::rational::DisplaySpec;
 use anything::Options;
 use codespan_reporting::diagnostic::{Diagnostic, Label};
@@ -197,6 +228,16 @@ impl Prop for C11 {
         20
     }
     fn generate(&self, tier: Tier, sink: &mut dyn FnMut(Case)) {
+        // (0) "so the diagnostic renderer can always underline it": single-error queries under
+        // leading and trailing blanks through the real binary; what it underlines must be the text
+        // the library's range selects
+        for q in ["1 m + 1 s", "1 / 0", "1 °", "20 °c to °F", "round(1, 2, 3)", "1 m to s", "2 ^ 0.5", "nosuchfn(1)", "1 +", "(1 / 0)", "3 kmfrobs", "1 °C^2 to K^2", "5 - (1 m + 1 s)", "1 m + 1 °"] {
+            for lead in ["", " ", "  ", "   "] {
+                for trail in ["", " "] {
+                    sink(Case::new("cli-underline", format!("{lead}{q}{trail}")));
+                }
+            }
+        }
         // (a) token soups
         let nmax = tier.pick(3, 4);
         for n in 1..=nmax {
@@ -393,16 +434,35 @@ impl Prop for C11 {
             Err(Bad::Class(c, why)) => return fw::fail(c, format!("input {s:?}: {why}")),
         };
         // a stride of the cases goes through the real binary as well
-        if fw::hash_str(s) % 97 == 0 && env.profile == "release" {
+        if (fw::hash_str(s) % 97 == 0 || case.fam == "cli-underline") && env.profile == "release" {
             let bin = crate::props::c19::any_bin();
             if bin.exists() {
-                if let Ok(out) = std::process::Command::new(&bin).arg("--").arg(s.replace('\0', "")).env_remove("RUST_LOG").output() {
+                if let Ok(out) = std::process::Command::new(&bin).arg("--").arg(s.replace('\0', "")).env_remove("RUST_LOG").env("NO_COLOR", "1").output() {
                     use std::os::unix::process::ExitStatusExt;
                     let stderr = String::from_utf8_lossy(&out.stderr);
                     if out.status.signal().is_some() || out.status.code() == Some(101) || stderr.contains("panicked at") {
                         return fw::fail("binary-crash", format!("`any -- {s:?}` died: {:?} {}", out.status, stderr.lines().take(3).collect::<Vec<_>>().join(" | ")));
                     }
                     env.bulk_evals += 1;
+                    // what the binary underlines is the text the library's range selects (judged for
+                    // one-line queries of single-width characters with exactly one error, when the
+                    // rendering has a caret line at all)
+                    let plain = s.chars().all(|c| (c.is_ascii() && !c.is_ascii_control()) || c == '°');
+                    if plain {
+                        if let Some(rs) = obs::eval(env.db(), s) {
+                            let errs: Vec<(usize, usize)> = rs.iter().filter_map(|r| if let Res::Err { start, end, .. } = r { Some((*start, *end)) } else { None }).collect();
+                            if errs.len() == 1 && errs[0].0 < errs[0].1 && s.is_char_boundary(errs[0].0) && s.is_char_boundary(errs[0].1) {
+                                let want = &s[errs[0].0..errs[0].1];
+                                let text = format!("{}\n{}", crate::props::c19::strip_ansi(&String::from_utf8_lossy(&out.stdout)), crate::props::c19::strip_ansi(&stderr));
+                                if let Some((src, col, n)) = caret_underline(&text) {
+                                    let got: String = src.chars().skip(col).take(n).collect();
+                                    if got != want {
+                                        return fw::fail("binary-underline", format!("`any -- {s:?}` underlines {got:?} (column {col}, {n} carets under {src:?}); the error's range {}..{} selects {want:?}", errs[0].0, errs[0].1));
+                                    }
+                                }
+                            }
+                        }
+                    }
                 }
             }
         }
